@@ -6,7 +6,17 @@
 
 int main(int argc, char** argv)
 {
-	if (argc < 3 || std::string(argv[1]) != "load") { fprintf(stderr, "usage: scn_msgpack load <file>\n"); return 3; }
+	if (argc < 3 || (std::string(argv[1]) != "load" && std::string(argv[1]) != "save")) { fprintf(stderr, "usage: scn_msgpack load|save <file>\n"); return 3; }
+	if (std::string(argv[1]) == "save")
+	{
+		const auto slines = vh::ReadLines(argv[2]);
+		return vh::ForkedRunner(slines.size(), [&](size_t r) {
+			rapidjson::Document scn;
+			scn.Parse(slines[r].c_str());
+			const std::string res = vh::RunSave<BitSerializer::MsgPack::MsgPackArchive>(scn);
+			fprintf(stdout, "{\"run\":%zu,\"id\":\"%s\",%s\n", r, scn["id"].GetString(), res.c_str() + 1);
+		});
+	}
 	const auto lines = vh::ReadLines(argv[2]);
 	std::vector<std::pair<size_t, std::string>> runs;
 	for (size_t i = 0; i < lines.size(); ++i)
